@@ -1,6 +1,7 @@
 package pubsub
 
 import (
+	"strings"
 	"os"
 	"testing"
 	"time"
@@ -55,4 +56,30 @@ func TestReproSendOnClosed(t *testing.T) {
 	}
 	close(stop)
 	t.Logf("%d install/uninstall cycles without a crash (%d subscribe errors)", n, nerr)
+}
+
+// Manual reproduction (VERIF_REPRO=spin): a pending-transaction filter that is uninstalled while another one keeps the
+// topic alive leaves its consumer goroutine spinning on the closed err channel.
+func TestReproPendingSpin(t *testing.T) {
+	if os.Getenv("VERIF_REPRO") != "spin" {
+		t.Skip("manual")
+	}
+	w := newApiWorld(t, 100, time.Hour, time.Hour)
+	a := w.api.NewPendingTransactionFilter()
+	b := w.api.NewPendingTransactionFilter()
+	t.Logf("filters %s %s", a, b)
+	if !w.api.UninstallFilter(b) {
+		t.Fatal("uninstall failed")
+	}
+	time.Sleep(500 * time.Millisecond)
+	for i := 0; i < 5; i++ {
+		ok, why := quietApi()
+		t.Logf("quiet=%v %s", ok, why)
+		time.Sleep(100 * time.Millisecond)
+	}
+	for _, g := range goroutines() {
+		if strings.Contains(g.stack, "NewPendingTransactionFilter.func1") {
+			t.Logf("consumer goroutine state=%q\n%s", g.state, g.stack)
+		}
+	}
 }
